@@ -169,6 +169,8 @@ func init() {
 			obs = append(obs, c.frameMaxObs()...)
 			obs = append(obs, c.Pools("net/packet")...)
 			obs = append(obs, c.ThresholdPlumbing()...)
+			obs = append(obs, c.ErrFlow(in, in)...)
+			obs = append(obs, filterObs(c.NoReadAhead(), func(o core.Ob) bool { return strings.Contains(o.Key, "packet") || o.Key == "scope" })...)
 			obs = append(obs, c.rootObs("R-TLG", "net/packet.(*Packet).UnPack", "net/packet.(*Packet).Pack")...)
 			return obs
 		},
